@@ -3,6 +3,7 @@ package props
 import (
 	"errors"
 	"fmt"
+	"math/rand/v2"
 
 	astits "github.com/asticode/go-astits"
 
@@ -41,7 +42,7 @@ func init() {
 	register(&Prop{
 		ID:    "C05",
 		Level: "exploration",
-		Rule: "the C04 histories (incl. failing WriteTables followed by successful ones, WriteData whose adaptation field leaves no room for the PES header, removals and re-adds, ≥40 packets per PID) executed on a " +
+		Rule: "the C04 histories (incl. failing WriteTables followed by successful ones, WriteData whose adaptation field leaves no room for the PES header, removals and re-adds, ≥40 packets per PID; in a quarter of them PES optional headers at the edge of the write contract: forbidden PTS_DTS flags, CRC flag, out-of-range clock/rate values) executed on a " +
 			"fresh Muxer; an online trace checker follows continuity_counter per PID (PAT, PMT, every elementary PID between its Add and its Remove) over the writer's byte stream; " +
 			"distinct = hash of the output bytes; non-trivial = some tracked PID carried ≥17 payload packets (wrap-around)",
 		Assumptions: []string{"packets without payload need not advance the counter and must not consume a value", "continuity is followed per PID over the whole output, also across Remove + Add of the same PID (a receiver of that PID must not observe a discontinuity)"},
@@ -54,6 +55,7 @@ func init() {
 			need(m, &out, "failed_then_successful_table_emissions", 40)
 			need(m, &out, "af_without_room_for_pes_header", 50)
 			need(m, &out, "removals_followed_by_readd", 20)
+			need(m, &out, "data_calls_with_edge_headers", 500)
 			return out
 		},
 	})
@@ -77,6 +79,11 @@ func runMuxStruct(c *mon.Ctx, prop string) {
 		ops, period := RandomHistory(r, o)
 		if i%8 == 0 {
 			ops = readdAutoScenario(r)
+		}
+		if prop == "C05" && i%4 == 1 {
+			// PES headers at the edge of the write contract (forbidden or unsupported flag combinations, out-of-range values): whether
+			// the Muxer accepts or refuses such a unit, the counters of the packets that do reach the output must stay gapless
+			c.Add("data_calls_with_edge_headers", int64(edgeHeaders(r, ops)))
 		}
 		hr := runHistory(ops, period)
 		if prop == "C04" {
@@ -165,6 +172,47 @@ func runMuxStruct(c *mon.Ctx, prop string) {
 			}
 		}
 	}
+}
+
+// edgeHeaders rewrites the optional PES header of about a third of the data operations into one that a stricter Muxer could refuse.
+func edgeHeaders(r *rand.Rand, ops []HOp) int {
+	n := 0
+	for k := range ops {
+		if ops[k].Kind != "data" || ops[k].Data == nil || ops[k].Data.PES == nil || ops[k].Data.PES.Header == nil || r.IntN(3) != 0 {
+			continue
+		}
+		h := ops[k].Data.PES.Header
+		if h.OptionalHeader == nil {
+			continue
+		}
+		oh := mon.Clone(h.OptionalHeader)
+		switch r.IntN(8) {
+		case 0:
+			oh.PTSDTSIndicator = astits.PTSDTSIndicatorIsForbidden
+		case 1:
+			oh.PTSDTSIndicator = 5 // only the two low bits can be coded
+			oh.PTS, oh.DTS = &astits.ClockReference{Base: 1}, &astits.ClockReference{Base: 2}
+		case 2:
+			oh.HasCRC = true
+			oh.CRC = uint16(r.UintN(1 << 16))
+		case 3:
+			oh.MarkerBits = uint8(r.UintN(4))
+		case 4:
+			oh.PTSDTSIndicator = astits.PTSDTSIndicatorOnlyPTS
+			oh.PTS = &astits.ClockReference{Base: []int64{-1, 1 << 33, 1<<40 + 5}[r.IntN(3)]}
+		case 5:
+			oh.HasESRate = true
+			oh.ESRate = 1<<22 + uint32(r.UintN(1<<9))
+		case 6:
+			oh.PTSDTSIndicator = astits.PTSDTSIndicatorBothPresent
+			oh.PTS, oh.DTS = &astits.ClockReference{Base: 10}, &astits.ClockReference{Base: 5000} // DTS after PTS
+		case 7:
+			oh.ScramblingControl = 4 + uint8(r.UintN(4))
+		}
+		h.OptionalHeader = oh
+		n++
+	}
+	return n
 }
 
 func histSample(hr *HistRun) map[string]any {
